@@ -323,12 +323,12 @@ func runC12(c *Ctx) error {
 		run.Stderr = &stderr
 		runErr := run.Run()
 		how := "harness -prop C12plain -tier " + c.Tier + " -seed " + strconv.FormatUint(c.Seed, 10)
-		if runErr != nil {
+		if runErr != nil && (ctxP.Err() != nil || c12Fatal.FindString(stderr.String()) == "") {
+			// a time-out under load, or an exit that is not a Go runtime failure: a fact about this run, not about nfpm
+			c.Rep.Note("concurrent-equals-sequential child: %v (time-out: %v); stderr tail: %.400s", runErr, ctxP.Err() != nil, stderr.String())
+		} else if runErr != nil {
 			msg := stderr.String()
-			head := "the child process ended abnormally: " + runErr.Error()
-			if m := c12Fatal.FindString(msg); m != "" {
-				head = m
-			}
+			head := c12Fatal.FindString(msg)
 			// the first nfpm frame of the crashing goroutine names the place
 			place := ""
 			for _, ln := range strings.Split(msg, "\n") {
